@@ -458,6 +458,10 @@ func c9special() []*c9pat {
 	aName, bName := c9name("a"), c9name("b")
 	return []*c9pat{
 		c9arr(c9it(aName), c9rest("a")),                                                         // rest name repeats a plain name: must agree
+		c9tup(c9attr("x", c9name("a")), c9rest("a")),                                            // the same for tuple, dict and set patterns
+		c9tup(c9attr("x", c9arr(c9it(c9name("a")), c9it(c9wild()))), c9rest("a")),               // ... also when the repeat is nested
+		c9dict(c9entry("k", c9name("a")), c9rest("a")),
+		c9set(c9it(c9num(1)), c9it(c9name("a")), c9rest("a")),
 		c9set(c9it(aName), c9it(c9name("a"))),                                                   // {a, a}
 		c9arr(c9it(aName), c9it(c9expr("(a)", model.Num(c9Sentinel["a"])))),                     // doc: (a) is the OUTER a even when a is also bound
 		c9tup(c9item{key: "a", short: true, p: aName}),                                          // (:a) shorthand
